@@ -2,6 +2,7 @@
 package c12
 
 import (
+	"strings"
 	"testing"
 
 	"pgregory.net/rapid"
@@ -26,6 +27,13 @@ func check(c Case) (o ev.Outcome) {
 	srcs := schema.Sources(c.Set, c.Order)
 	if c.Set.OlderText() != nil {
 		o.Class("older-revision-also-loaded")
+	}
+	for _, m := range c.Set.Modules {
+		for _, a := range m.Augments {
+			if strings.Contains(a.Nodes[0].Name, "late") {
+				o.Class("augment-at-or-below-implicit-case")
+			}
+		}
 	}
 	o.Sample = map[string]any{"order": c.Order, "sources": srcs}
 	var obs *schema.Observed
@@ -91,6 +99,10 @@ func gen(t *rapid.T) Case {
 	o.Typedefs = rapid.IntRange(0, 3).Draw(t, "typedefs") == 0
 	set, _ := schema.Generate(t, o)
 	schema.AddAugments(t, set, 0, 3)
+	if rapid.IntRange(0, 2).Draw(t, "late") == 0 {
+		// augments of the implicit case of a shorthand choice member and of what lies below it
+		schema.AddLateAugments(t, set, 2)
+	}
 	c := Case{Set: set}
 	if rapid.Bool().Draw(t, "permute") {
 		c.Order = schema.Order(t, len(set.Modules))
